@@ -728,6 +728,15 @@ def check_selection(ctx, ad: SelAdapter, quick=160, thorough=2500):
                                       "follows from the selection so far (Lean Spec)",
                                       {"inst": inst, "actions": acts[:t], "real": o[key], "spec": spec_states[t]})
                         break
+            # the `keepout` feature shown to the policy = the cells the instance does not offer
+            if "keepout" in tr.obs[r][0]:
+                want = bits([not a for a in inst["avail"]])
+                for t, o in enumerate(tr.obs[r]):
+                    if o["keepout"] != want:
+                        ctx.violation(f"{ad.name}:bookkeeping:keepout",
+                                      "`keepout` shown to the policy is not the complement of the instance's available cells",
+                                      {"inst": inst, "after_steps": t, "real": o["keepout"], "want": want})
+                        break
             # chosen = set of the actions so far
             if "chosen" in tr.obs[r][0]:
                 for t, o in enumerate(tr.obs[r]):
@@ -988,6 +997,30 @@ def check_batch_independence(ctx, ad: SelAdapter, quick=40, thorough=500):
                                    "solo_reward_ticks": rew_s, "batched_reward_ticks": rew_b[r], "unit": inst["unit"],
                                    "quotas_in_batch": [i["q"] for i in insts], "row": r})
         ctx.sample({"env": ad.name, "B": B, "kind": bk, "steps": tr.steps, "quotas": [i["q"] for i in insts]})
+        if ad.name == "flp":
+            check_flp_view(ctx)
+
+
+def check_flp_view(ctx):
+    """the batch-wide `chosen.nonzero(as_tuple=True)[1].view(B, -1)` of `FLPEnv._step` vs `Flp.flatIdx` / `viewRow`,
+    on arbitrary boolean matrices (equal AND unequal numbers of chosen entries per row, total divisible by B)"""
+    Bv = ctx.rng.choice([1, 2, 3, 4])
+    n = ctx.rng.choice([2, 3, 5])
+    for _ in range(20):
+        ch = [[ctx.rng.random() < 0.5 for _ in range(n)] for _ in range(Bv)]
+        tot = sum(sum(r) for r in ch)
+        if tot % Bv == 0 and tot > 0:
+            break
+    else:
+        return
+    real = torch.tensor(ch).nonzero(as_tuple=True)[1].view(Bv, -1).tolist()
+    flat = " ".join("1" if b else "0" for r in ch for b in r)
+    f = parse_fields(ctx.driver.ask(f"flp.view {Bv} {n} | {flat}"))
+    model = [[int(x) for x in row.split(",") if x != ""] for row in f.get("rows", "").split(":")]
+    ctx.case(("flp", "view", Bv, n, flat))
+    ctx.count("flp.view-checks." + ("equal-counts" if len({sum(r) for r in ch}) == 1 else "unequal-counts"))
+    if model != real:
+        ctx.disagreement("flp: model of nonzero().view(B,-1) differs from torch", {"chosen": ch, "real": real, "model": model})
 
 
 # =================================================================================================
@@ -1082,6 +1115,13 @@ def check_completeness(ctx, ad: SelAdapter, quick=16, thorough=150):
                 continue
             best_real = max(rew)
             best_spec = max(ad.reward_sign * v for v in spec_obj.values())
+            fo = parse_fields(ctx.driver.ask(f"{ad.fam}.opt " + ad.line(inst, []).split(" ", 1)[1]))
+            if "opt" not in fo or int(fo["opt"]) != best_spec or int(fo.get("nfeas", -1)) != len(spec_feas):
+                ctx.disagreement(f"{ad.name}: Lean `Spec.optimum` / candidate enumeration differs from the harness' enumeration",
+                                 {"inst": inst, "lean": fo, "harness_best": best_spec, "harness_nfeas": len(spec_feas)})
+            else:
+                best_spec = int(fo["opt"])
+                ctx.count(f"{ad.name}.tiny.optimum-by-Lean-brute-force")
             tol = ad.reward_tol(inst, max(abs(v) for v in rew))
             if abs(best_real - best_spec) > tol:
                 ctx.violation(f"{ad.name}:optimum-differs",
@@ -1198,6 +1238,52 @@ def _register():
     import os
     from common import LEAN_DIR
 
+    def extra(prop, name):
+        """further Lean modules of a unit and their theorems (growth round)"""
+        ns = MODS[name]
+        P = f"Rl4co.{ns}."
+        mods, th = [], []
+        sel = ns in ("Flp", "Mcp")
+        if prop in ("C04", "C08") and sel:
+            mods.append("Rl4co.Props.C04.SelectBatch")
+            if prop == "C04":
+                th += [Theorem("Rl4co.Bat.Loop.rows", "proved", "every row of the decoding loop is a mask-confined run of its own environment, all of one length"),
+                       Theorem("Rl4co.Sel.loop_length", "proved", "the loop from reset runs exactly to the largest quota of the batch"),
+                       Theorem(P + "batch_equal_quota", "proved", "∀ batch of equal quotas q, ∀ row: q steps, Spec-feasible selection, reward = ∓objective of it")]
+                th.append(Theorem(P + ("batchStep_eq_map" if ns == "Flp" else "batchDone_eq_row"), "proved",
+                                  "FLP: the batched `_step` with `nonzero().view(B,-1)` = row-wise map of the per-instance step on lock-step rows"
+                                  if ns == "Flp" else
+                                  "MCP: every entry of row r of the [B,B] `done` matrix = the per-instance done of row r on lock-step rows"))
+                if ns == "Mcp":
+                    th.append(Theorem(P + "batchAllDone_eq", "proved", "`.all()` over the [B,B] matrix = `.all()` over the per-row flags"))
+            else:
+                th += [Theorem(P + "batch_quota_counterexample", "proved",
+                               "¬ batch_quota_statement: in the model of the real loop a row next to a larger quota selects more than its quota — known finding"),
+                       Theorem(P + "batch_equal_quota", "partial", "the batch statement for equal quotas (all the bundled generator emits)")]
+        if prop == "C05" and sel:
+            mods += ["Rl4co.Props.C05.SelectOpt", "Rl4co.Props.C12.SelectStarts"]
+            th += [Theorem(P + "best_reward_eq_optimum", "proved", "an episode attains Spec.optimum (brute force over all feasible selections) and none exceeds it"),
+                   Theorem(P + "optimum_spec", "proved", "Spec.optimum is the value of a feasible selection and bounds all of them"),
+                   Theorem(P + "forced_starts_ok", "proved", "multi-start: forced starts 0..k-1 (k ≤ n) are distinct, offered, and each completes to a feasible episode")]
+        if prop == "C02":
+            mods.append("Rl4co.Props.C02.SelectGen")
+            if sel:
+                th += [Theorem(P + "gen_wf", "proved", "generator post-condition (1 ≤ quota ≤ n) ⇒ WF"),
+                       Theorem(P + "gen_defaults_wf", "proved", "the generator's extracted defaults give WF instances"),
+                       Theorem(P + "solvable", "proved", "WF ⇒ no dead end ∧ a complete episode attaining the optimum exists")]
+                if ns == "Mcp":
+                    th.append(Theorem(P + "gen_ids_in_range", "proved", "generated membership entries are 0 or ids ≤ num_items (via Gen.mcp_gen_total)"))
+            else:
+                th += [Theorem(P + "no_dead_end_iff", "proved", "EXACT WF: dead-end free ⇔ max_decaps ≤ number of allowed cells"),
+                       Theorem(P + ("gen_wf_mdpp" if name == "mdpp" else "gen_wf"), "proved", "generator post-condition ⇒ WF (incl. ProbeMasked for DPP)"),
+                       Theorem(P + "gen_defaults_wf", "proved", "extracted generator defaults leave room for max_decaps on the 10×10 grid"),
+                       Theorem(P + "solvable", "proved", "WF ⇒ no dead end ∧ a complete feasible placement exists")]
+        if prop == "C05" and not sel:
+            mods.append("Rl4co.Props.C12.SelectStarts")
+            th += [Theorem(P + "forced_start_not_offered", "proved", "multi-start on DPP/MDPP (generic rule 1..k): a keep-out / probe cell among 1..k is forced although not offered"),
+                   Theorem(P + "default_start_out_of_range", "proved", "with the default number of starts the cell index n (out of range) is forced")]
+        return mods, th
+
     routines = {"C08": check_selection, "C02": check_termination, "C03": check_reward,
                 "C04": check_batch_independence, "C05": check_completeness}
     for prop, fn in routines.items():
@@ -1207,9 +1293,12 @@ def _register():
             mod = f"Rl4co.Props.{prop}.{MODS[name]}"
             have = os.path.exists(os.path.join(LEAN_DIR, *mod.split(".")) + ".lean")
             thms = THEOREMS.get((prop, name), []) if have else []
+            xm, xt = extra(prop, name)
+            xm = [m for m in xm if os.path.exists(os.path.join(LEAN_DIR, *m.split(".")) + ".lean")] if have else []
+            thms = thms + (xt if have and xm else [])
             register(Unit(prop, name, (lambda ctx, fn=fn, ad=ad: fn(ctx, ad)),
                           drivers=[f"drv_{ad.fam}"],
-                          lean_modules=[mod] if have else [],
+                          lean_modules=([mod] + xm) if have else [],
                           theorems=thms,
                           assumptions=[NOTE[name]] + ([] if thms else [NO_THM])))
 
